@@ -56,7 +56,15 @@ example : datedHintSafe (.easter none) ⟨.none, -300000⟩ (.fixed none 12 31) 
 /-- outside: day offsets beyond ±92 000 000 days on a yearless start (±300 000 days next to Easter); a yearless
 start with an end that carries a year (no documented meaning) -/
 example : datedHintSafe (.fixed none 1 1) ⟨.none, 92000001⟩ (.fixed none 1 10) off0 = false := by decide
+example : datedHintSafe (.fixed none 1 1) ⟨.none, -92000001⟩ (.fixed none 1 10) off0 = false := by decide
+example : datedHintSafe (.fixed none 1 1) ⟨.none, 99499999⟩ (.fixed none 1 10) off0 = false := by decide
 example : datedHintSafe (.fixed none 2 29) off0 (.fixed none 2 29) ⟨.none, 92000001⟩ = false := by decide
+/-- inside again, beyond representability: a start offset of +99 500 000 days or more — nothing ever starts
+(`Jan 01 +99500000 days-Jan 10`, `easter +9000000000000000000 days-Oct 15 -Mo -9000000000000000000 days`,
+`Feb 29 +100000000 days-Feb 29 +200000000 days`) -/
+example : datedHintSafe (.fixed none 1 1) ⟨.none, 99500000⟩ (.fixed none 1 10) off0 = true := by decide
+example : datedHintSafe (.easter none) ⟨.none, 9000000000000000000⟩ (.fixed none 10 15) ⟨.prev 0, -9000000000000000000⟩ = true := by decide
+example : datedHintSafe (.fixed none 2 29) ⟨.none, 100000000⟩ (.fixed none 2 29) ⟨.none, 200000000⟩ = true := by decide
 example : datedHintSafe (.easter none) off0 (.fixed none 1 10) ⟨.none, -300001⟩ = false := by decide
 example : datedHintSafe (.fixed none 10 15) off0 (.easter (some 2021)) off0 = false := by decide
 
